@@ -8,7 +8,7 @@ META = {
     "level": "exploration",
     "technique": "TLA+ law plan (Laws.tla: integral table with level/power attributes, cells enumerated by TLC) + measurement of the real un-jitted integrals + TLC trace validation (LawsTrace) of integer residual classes / orders of vanishing",
     "text": "For each of the 10 exact evolution integrals (LO j12, NLO j13/j23, NNLO j14/j24/j34, N3LO j03..j33) x b-source (nf 3-6 from an independent literature table, or random positive b's) x direction: j(a0,a0)=0; the local law dj/da1 = a1^k/(beta0 a1^2 (1+b1 a1+...)) by 5-point differences (by the fundamental theorem this is 'equals the defining integral'); exact-expanded vanishes like a^level (measured exponent from halving both couplings, leading term required to dominate); the three N3LO roots are roots (residual) and are the three roots (Vieta).",
-    "note": "Local law differentiated at a1 >= 0.004*power where the closed forms are not dominated by cancellation noise; clean residual <= 3e-10, required <= 1e-7 (a wrong coefficient gives >= 1e-3). Taylor exponents on the clean tree within 0.08 of the level, required >= level-0.35 (a wrong Taylor coefficient gives level-1); points where the next Taylor term exceeds 10% of the leading one or the difference is < 1e3 x cancellation noise are dropped, a cell without points is 'unresolved'. Random b's for the N3LO integrals are drawn where roots() is itself accurate; roots() is judged by its own cells, where generic positive b's (fixed witness b=(1,10,1)) are part of the quantifier.",
+    "note": "Local law differentiated at a1 >= 0.004*power where the closed forms are not dominated by cancellation noise; clean residual <= 3e-10, required <= 1e-7 (a wrong coefficient gives >= 1e-3). Taylor exponents on the clean tree within 0.08 of the level, required >= level-0.35 (a wrong Taylor coefficient gives level-1); points where the next Taylor term exceeds 10% of the leading one or the difference is < 1e3 x cancellation noise are dropped, a cell without points is 'unresolved'. Random b's for the N3LO integrals are drawn where roots() is itself accurate; the roots clauses quantify over the physical N3LO beta polynomial (nf 3-6, independent table) only; roots() for unphysical b's (NaN when 3 b1 b3 <= b2^2) is reported as a diagnostic, not as a verdict.",
     "design_ref": "1 (mode L), 4.11, 5 C13",
     "rule": "cell = (clause, integral, b-source, direction); 10 (quick) / 100 (thorough) seeded points per cell, worst residual / smallest exponent recorded; non-trivial = resolved cell with a required class",
 }
@@ -16,3 +16,4 @@ META = {
 
 def run(chk):
     engine.run_law(chk, "C13", c13.measure, npts_quick=10, npts_thorough=100, switches=("Strict",))
+    c13.diagnose_generic_roots(chk)
